@@ -32,7 +32,13 @@ static void check_sequence(const char* what, const std::string& label, const ipr
    if (n > 0) {
       auto it = s.begin(); auto it2 = it; ++it2; auto it3 = it2; --it3;
       auto post = it; auto old = post++;
-      out("Iterator::++/--", label + ":" + what, it3 == it and old == it and post == it2 and (it2 != it));
+      auto pd = it2; auto oldd = pd--;                          // postfix decrement: yields the old position, steps back
+      out("Iterator::++/--", label + ":" + what, it3 == it and old == it and post == it2 and (it2 != it) and oldd == it2 and pd == it);
+      // a full walk backwards with each flavour of decrement
+      std::size_t back = 0, backp = 0;
+      for (auto r = s.end(); r != s.begin() and back <= n + 2;) { --r; ++back; }
+      for (auto r = s.end(); r != s.begin() and backp <= n + 2;) { r--; ++backp; }
+      out("Iterator::backwards", label + ":" + what, back == n and backp == n, "visited=" + std::to_string(back) + "/" + std::to_string(backp));
    }
 }
 
